@@ -681,6 +681,8 @@ def expand_combinators(j):
                     b['blocks'][bi - 1] = snapshot[2]
                     notes.append('NOT expanded closure call in %s: %s' % (b['path'], e))
                 continue
+            if p not in _COMB and fn.get('path') in _COMB:
+                p = fn.get('path')       # a specialised impl (`<slice::IterMut as Iterator>::for_each`) of the trait method
             if p not in _COMB:
                 continue
             kind, how = _COMB[p]
